@@ -162,15 +162,16 @@ fn generate_serialize_variant_arm(
     let qualified_name = format!("{interface}.{}", variant_name.unraw());
 
     match &variant.fields {
-        // Unit variant - serialize as tagged enum with just error field.
-        Fields::Unit => Ok(quote! {
-            Self::#variant_name => {
+        // Variant without fields (`V` or `V {}`) - serialize as tagged enum with just error field.
+        fields if is_fieldless(fields) => Ok(quote! {
+            Self::#variant_name { .. } => {
                 use serde::ser::SerializeMap;
                 let mut __zlink_map = __zlink_serializer.serialize_map(Some(1))?;
                 __zlink_map.serialize_entry("error", #qualified_name)?;
                 __zlink_map.end()
             }
         }),
+        Fields::Unit => unreachable!("a unit variant has no fields"),
         Fields::Named(fields) => {
             // Named fields - serialize as tagged enum with parameters.
             let field_info = FieldInfo::extract(fields);
@@ -233,6 +234,15 @@ fn generate_serialize_variant_arm(
     }
 }
 
+/// Whether a variant has no fields: a unit variant or a struct variant written `V {}`.
+fn is_fieldless(fields: &Fields) -> bool {
+    match fields {
+        Fields::Unit => true,
+        Fields::Named(named) => named.named.is_empty(),
+        Fields::Unnamed(_) => false,
+    }
+}
+
 /// Generate Deserialize implementation using a helper enum with serde derives.
 fn generate_deserialize_with_derive(
     input: &DeriveInput,
@@ -272,7 +282,8 @@ fn generate_deserialize_with_derive(
         // An error without parameters can still come with a `parameters` member (systemd and the
         // reference implementations always send `"parameters": {}`), which a plain unit variant
         // only accepts when it is `null`.
-        if matches!(variant.fields, Fields::Unit) {
+        if is_fieldless(&variant.fields) {
+            variant.fields = Fields::Unit;
             variant
                 .attrs
                 .push(parse_quote!(#[serde(deserialize_with = "__zlink_no_parameters")]));
@@ -316,9 +327,10 @@ fn generate_deserialize_with_derive(
         .map(|variant| {
             let variant_name = &variant.ident;
             match &variant.fields {
-                Fields::Unit => quote! {
-                    __ZlinkDeserHelper::#variant_name => #name::#variant_name
+                fields if is_fieldless(fields) => quote! {
+                    __ZlinkDeserHelper::#variant_name => #name::#variant_name {}
                 },
+                Fields::Unit => unreachable!("a unit variant has no fields"),
                 Fields::Named(fields) => {
                     let field_names: Vec<_> = fields
                         .named
